@@ -185,6 +185,11 @@ func (s *Sim) aborting() bool { return s.abort }
 //go:norace
 func (s *Sim) setAbort() { s.abort = true }
 
+// Aborting reports that the run is being torn down.
+//
+//go:norace
+func (s *Sim) Aborting() bool { return s.abort }
+
 // Draw is the tape access for the task that currently holds the grant.
 //
 //go:norace
